@@ -14,8 +14,8 @@ NOT_YET = json.loads((ROOT / "harness" / "not_applicable.json").read_text())
 checks, na = [], []
 for p in props:
     pid = p["id"]
-    if (ROOT / "harness" / "props" / f"{pid}.py").exists():
-        P = importlib.import_module(f"props.{pid}").PROP
+    P = importlib.import_module(f"props.{pid}").PROP if (ROOT / "harness" / "props" / f"{pid}.py").exists() else None
+    if P is not None and getattr(P, "claim", True):
         checks.append({
             "property_id": pid,
             "quick_cmd": f"./check {pid} quick",
